@@ -189,6 +189,10 @@ def verify_function(e: Engine, qname: str) -> FunctionResult:
         res.error = f"{kind}: {ex}"
         del e.obls[start:]
         return res
+    except Exception as ex:      # the code changed into a shape the engine mis-handles: undecided, never a crash or a violation
+        res.error = f"unsupported-construct: engine error {type(ex).__name__}: {ex}"
+        del e.obls[start:]
+        return res
     res.obligations = e.obls[start:]
     return res
 
